@@ -546,6 +546,10 @@ def run_impl(case):
             i, j = rng.sample(range(3), 2)
             mp[vd[i]] = dims[j]
             kw["vdim_mapping"] = mp
+        if why == "nvdim" and rng.random() < 0.7:
+            # every label mapped to an axis: only the component-count check can refuse
+            kw["vdims"] = ["c%d" % i for i in range(nv)]
+            kw["vdim_mapping"] = {v: dims[i % 3] for i, v in enumerate(kw["vdims"])}
         arr = fieldio.gen_int_array(rng, (*[int(k) for k in mesh.n], nv))
         f = df.Field(mesh, nvdim=nv, value=arr, **kw)
         obs["field"] = fieldio.field_json(f)
